@@ -51,7 +51,12 @@ def gen_def(rng):
         tdefs["*"] = {"g": rng.randint(0, 9), "gg": "glob"}
         if rng.random() < 0.2:
             tdefs["*"][":factory"] = Fac
+    marker_in_relation = set()
     for ty in types:
+        if rng.random() < 0.3:
+            # a type without an own entry in `types`: it still gets the '*' defaults; the marker goes into the relations
+            marker_in_relation.add(ty)
+            continue
         tdefs[ty] = {"_t": ty}
         if rng.random() < 0.6:
             tdefs[ty]["icon"] = ty.lower()
@@ -101,17 +106,30 @@ def gen_def(rng):
             s["bt"] = tg.BlindTextRandomizer(sentence_count=1)
         if rng.random() < 0.3:
             s["g"] = "relationoverride"
+        if rng.random() < 0.25:
+            s["nothing"] = None  # a literal None is an ordinary attribute value
+        if rng.random() < 0.15:
+            s["zero"] = 0
+            s["empty"] = ""
         if rng.random() < 0.2:
             s[":callback"] = _cb
         if rng.random() < 0.15:
             s[":factory"] = Fac
         return s
 
-    rel = {"__root__": {ty: spec() for ty in rng.sample(types, rng.randint(1, len(types)))}}
+    def rspec(ty):
+        sp = spec()
+        if ty in marker_in_relation:
+            sp["_t"] = ty
+        return sp
+
+    rel = {"__root__": {ty: rspec(ty) for ty in rng.sample(types, rng.randint(1, len(types)))}}
     for i, ty in enumerate(types):
         later = types[i + 1:]
         if later and rng.random() < 0.8:
-            rel[ty] = {c: spec() for c in rng.sample(later, rng.randint(1, len(later)))}
+            rel[ty] = {c: rspec(c) for c in rng.sample(later, rng.randint(1, len(later)))}
+    if "*" in tdefs and rng.random() < 0.3:
+        tdefs["*"]["gnone"] = None
     d = {"relations": rel, "types": tdefs}
     if rng.random() < 0.5:
         d["name"] = "gen"
@@ -228,7 +246,7 @@ def check_tree(tree, sd, typed, bad, res):
                             bad.append(f"attribute {key}={a.get(key)!r}, expected {sorted(exp)} (type {ty}, #{i} of relation, #{pos} of siblings)")
                     else:
                         if key not in a or a[key] != val or type(a[key]) is not type(val):
-                            bad.append(f"attribute {key}={a.get(key, '<missing>')!r}, expected {val!r}")
+                            bad.append(f"attribute {key}={a.get(key, '<missing>')!r}, expected the literal {val!r}")
                 extra = set(a) - set(merged) - ({"cb"} if cb else set())
                 if extra:
                     bad.append(f"extra attributes {extra}")
@@ -284,7 +302,7 @@ NSHARDS = 16
 
 
 def shards(tier, seed):
-    cnt = 120 if tier == "quick" else 1500
+    cnt = 120 if tier == "quick" else 8000
     return [{"name": f"rand{i}", "kind": "rand", "i": i, "count": cnt, "budget_s": 90 if tier == "quick" else 1200}
             for i in range(NSHARDS)]
 
